@@ -32,6 +32,33 @@ def decode(v):
     raise ValueError('cannot decode %r' % (v,))
 
 
+class _IOView:
+    """the verifier's model of io.BytesIO has fields data/pos; natively they are getvalue()/tell()"""
+
+    def __init__(self, b):
+        self._b = b
+
+    @property
+    def data(self):
+        return self._b.getvalue()
+
+    @property
+    def pos(self):
+        return self._b.tell()
+
+
+class _SelfView:
+    def __init__(self, o):
+        object.__setattr__(self, '_o', o)
+
+    def __getattr__(self, name):
+        import io
+        v = getattr(object.__getattribute__(self, '_o'), name)
+        if isinstance(v, io.BytesIO):
+            return _IOView(v)
+        return v
+
+
 def main(path):
     with open(path) as f:
         rp = json.load(f)
@@ -56,9 +83,15 @@ def main(path):
     try:
         if harness.get('setup'):
             exec(harness['setup'], ns)
-            for k in list(ns):
-                pass
+        if harness.get('self'):
+            ns['self'] = _SelfView(eval(harness['self'], ns))
+        for k, e in (rp.get('let') or {}).items():
+            ns[k] = eval(e, ns)
+            if isinstance(ns[k], (bytearray,)):
+                ns[k] = bytes(ns[k])
         ns['result'] = eval(harness['call'], ns)
+        if harness.get('self') and ns['result'] is eval(harness['self'], ns):
+            ns['result'] = ns['self']
         verdict['raised'] = None
         verdict['result'] = repr(ns['result'])[:500]
     except BaseException as e:      # noqa: the point is to see every escaping exception, SystemExit included
